@@ -1052,12 +1052,90 @@ func c17OneSidedByLookup(c *Ctx, p *Prog) {
 		}
 		n++
 		fromTable := false
+		// the element values ever appended to a slice variable (a local, or a field of a row under construction)
+		var appended func(sv ssa.Value, seen map[ssa.Value]bool) ([]ssa.Value, bool)
+		appended = func(sv ssa.Value, seen map[ssa.Value]bool) ([]ssa.Value, bool) {
+			if seen[sv] {
+				return nil, true
+			}
+			seen[sv] = true
+			switch x := sv.(type) {
+			case *ssa.Const:
+				return nil, true
+			case *ssa.Slice:
+				return appended(x.X, seen)
+			case *ssa.Phi:
+				var out []ssa.Value
+				for _, e := range x.Edges {
+					el, ok := appended(e, seen)
+					if !ok {
+						return nil, false
+					}
+					out = append(out, el...)
+				}
+				return out, true
+			case *ssa.Call:
+				bi, ok := x.Call.Value.(*ssa.Builtin)
+				if !ok || bi.Name() != "append" || len(x.Call.Args) != 2 {
+					return nil, false
+				}
+				out, ok := appended(x.Call.Args[0], seen)
+				if !ok {
+					return nil, false
+				}
+				sl, ok := x.Call.Args[1].(*ssa.Slice)
+				if !ok {
+					return nil, false
+				}
+				al, ok := sl.X.(*ssa.Alloc)
+				if !ok {
+					return nil, false
+				}
+				for _, st := range storesInto(al) {
+					out = append(out, st.Val)
+				}
+				return out, true
+			case *ssa.UnOp:
+				if x.Op != token.MUL {
+					return nil, false
+				}
+				f, _ := fieldOfAddr(x.X)
+				if f == nil {
+					return nil, false
+				}
+				var out []ssa.Value
+				for _, st := range storesToField(fn, f) {
+					el, ok := appended(st.Val, seen)
+					if !ok {
+						return nil, false
+					}
+					out = append(out, el...)
+				}
+				return out, true
+			}
+			return nil, false
+		}
 		var look func(v ssa.Value, d int) bool
 		look = func(v ssa.Value, d int) bool {
 			if d > 4 {
 				return false
 			}
 			switch x := v.(type) {
+			case *ssa.UnOp:
+				// an element of a list: every value ever appended to the list is such a lookup (nil where missing)
+				if ia, ok := x.X.(*ssa.IndexAddr); ok && x.Op == token.MUL {
+					els, ok := appended(ia.X, map[ssa.Value]bool{})
+					if !ok || len(els) == 0 {
+						return false
+					}
+					for _, e := range els {
+						if !look(e, d+1) {
+							return false
+						}
+					}
+					return true
+				}
+				return false
 			case *ssa.Lookup:
 				f, _ := loadOfField(x.X)
 				return f == metricsF
@@ -1075,7 +1153,7 @@ func c17OneSidedByLookup(c *Ctx, p *Prog) {
 		}
 		fromTable = look(v, 0)
 		c.Check(fromTable, R, fmt.Sprintf("Tables:missing-metric test#%d", n), p.pos(bo.Pos()), "the tested value is a lookup in Collection.Metrics",
-			"whether a configuration lacks the metric is asked of something other than Collection.Metrics[key]: a row's list holds only the configurations present, so the test never fires and a one-sided benchmark gets a row with a fabricated delta")
+			"whether a configuration lacks the metric is asked of something other than Collection.Metrics[key] (or a list holding exactly those lookups): a row's list has a placeholder where a configuration is missing, so the test never fires and a one-sided benchmark gets a row with a fabricated delta")
 	})
 	c.Floor(R, "nil tests of *Metrics in Collection.Tables", n, 1)
 }
